@@ -61,6 +61,12 @@ type c16Case struct {
 	MaxFrame   uint32  `json:"max_frame"` // server MaxReadFrameSize (0 = default)
 	ReadBuf    int     `json:"read_buf"`
 	MaxHdr     int     `json:"max_hdr,omitempty"` // http.Server.MaxHeaderBytes (0 = default): small values put header lists over the limit
+	// Upgrade: the connection starts the way h2c starts it after "Upgrade: h2c": the
+	// upgrade request is stream 1 and UpSettings are the bytes of its HTTP2-Settings
+	// header. UpFrom3: the client's own streams then start at 3 (else it re-uses 1).
+	Upgrade    bool   `json:"upgrade,omitempty"`
+	UpSettings []byte `json:"up_settings,omitempty"`
+	UpFrom3    bool   `json:"up_from3,omitempty"`
 	Ops        []c16Op `json:"ops"`
 	Cut        int     `json:"cut"` // -1, or permille of the last write after which the client closes
 }
@@ -207,6 +213,34 @@ func c16Gen(t *rapid.T) c16Case {
 	c.MaxFrame = rapid.SampledFrom([]uint32{0, 16384}).Draw(t, "maxframe")
 	c.ReadBuf = rapid.SampledFrom([]int{0, 0, 16, 256, 4096}).Draw(t, "readbuf")
 	c.MaxHdr = rapid.SampledFrom([]int{0, 0, 1024, 4096}).Draw(t, "maxhdr")
+	if rapid.IntRange(0, 5).Draw(t, "upgrade") == 0 {
+		c.Upgrade = true
+		c.UpFrom3 = rapid.Bool().Draw(t, "upFrom3")
+		set := func(id uint16, v uint32) []byte {
+			return binary.BigEndian.AppendUint32(binary.BigEndian.AppendUint16(nil, id), v)
+		}
+		switch rapid.IntRange(0, 9).Draw(t, "upSettings") {
+		case 0: // empty
+		case 1:
+			c.UpSettings = set(4, 1000)
+		case 2:
+			c.UpSettings = set(1, rapid.SampledFrom([]uint32{0, 1, 4096, 65536, 1 << 31}).Draw(t, "tableSize"))
+		case 3:
+			c.UpSettings = append(set(3, 100), set(1, 4096)...)
+		case 4:
+			c.UpSettings = set(2, 7) // invalid ENABLE_PUSH
+		case 5:
+			c.UpSettings = set(4, 1<<31) // invalid INITIAL_WINDOW_SIZE
+		case 6:
+			c.UpSettings = set(5, 100) // invalid MAX_FRAME_SIZE
+		case 7:
+			c.UpSettings = append(set(3, 0), set(6, 10)...)
+		case 8:
+			c.UpSettings = vp.Bytes(6, 6).Draw(t, "oneSetting")
+		default:
+			c.UpSettings = vp.Bytes(0, 20).Draw(t, "settingsBytes")
+		}
+	}
 	// client reading habit: 0 reads after every write, 1 mixed, 2 never before the end
 	habit := rapid.SampledFrom([]int{0, 1, 1, 2, 2}).Draw(t, "habit")
 	mode := rapid.SampledFrom([]int{0, 1, 1, 1, 1, 2, 2}).Draw(t, "mode") // 0 raw, 1 mutated session, 2 floods
@@ -424,7 +458,19 @@ func c16Run(c c16Case, r *vp.Rec) (err error) {
 	if maxStreams == 0 {
 		maxStreams = 2
 	}
-	s := vpNewSrv(vpSrvOpts{Sched: c.Sched, MaxStreams: maxStreams, MaxReadFrame: c.MaxFrame, ReadBuf: c.ReadBuf, MaxHeaderBytes: c.MaxHdr}, h)
+	s := vpNewSrv(vpSrvOpts{Sched: c.Sched, MaxStreams: maxStreams, MaxReadFrame: c.MaxFrame, ReadBuf: c.ReadBuf, MaxHeaderBytes: c.MaxHdr,
+		Upgrade: c.Upgrade, UpgradePath: "/1", UpgradeSettings: c.UpSettings}, h)
+	if c.Upgrade {
+		r.Class("h2c-upgrade-start")
+	}
+	if s.sc == nil {
+		// ServeConn refused the connection before it was set up
+		r.Class("connection-refused-at-start")
+		if !s.closeAndWait(c16Bound) {
+			return fmt.Errorf("ServeConn did not return within %v after refusing the connection", c16Bound)
+		}
+		return nil
+	}
 	closed := false
 	finish := func() error {
 		// The client closes; ServeConn must return within bounded (fake) time. Time in
@@ -536,6 +582,9 @@ func c16Run(c c16Case, r *vp.Rec) (err error) {
 	}
 
 	nextID := uint32(1)
+	if c.Upgrade && c.UpFrom3 {
+		nextID = 3
+	}
 	var opened []uint32
 	newID := func() uint32 {
 		id := nextID
